@@ -192,6 +192,57 @@ def r2_probability(ctx, rule):
         ctx.bad(rule, 'lib_trainer/run_trainer.py::run_trainer', 'save_omen_rules_to_disk arguments', 'keyspace, level counts and N', None, rt)
 
 
+def r18_level_table_columns(ctx, rule):
+    """The per-level tables the trainer saves (omen_keyspace.txt, omen_pws_per_level.txt, pcfg_omen_prob.txt) are `level<TAB>value`:
+    in every loop of save_omen_rules_to_disk over the (level, value) pairs of a counter the line written is the first component, a
+    TAB, the second component.  (Mutation sweep: `str(level[1]) + "\t" + str(level[1])` / `str(level[0]) + "\t" + str(level[0])`.)"""
+    fn = ctx.fn(OFO)
+    ctx.stats['functions'].add(OFO)
+    n = 0
+    ok = True
+    for lp in [x for x in walk_local(fn) if isinstance(x, ast.For)]:
+        it = U(lp.iter)
+        if not ('.most_common()' in it or it.endswith('.items()')) or 'grammar' in it or 'next_letter' in it:
+            continue
+        if isinstance(lp.target, ast.Name):
+            first, second = '%s[0]' % lp.target.id, '%s[1]' % lp.target.id
+        elif isinstance(lp.target, ast.Tuple) and len(lp.target.elts) == 2 and all(isinstance(e, ast.Name) for e in lp.target.elts):
+            first, second = lp.target.elts[0].id, lp.target.elts[1].id
+        else:
+            continue
+        for c in calls_in(lp):
+            if not (isinstance(c.func, ast.Attribute) and c.func.attr == 'write' and len(c.args) == 1):
+                continue
+            n += 1
+            parts = []
+
+            def flat(e):
+                if isinstance(e, ast.BinOp) and isinstance(e.op, ast.Add):
+                    flat(e.left)
+                    flat(e.right)
+                else:
+                    parts.append(e)
+            flat(c.args[0])
+            cols = [U(p.args[0]) if isinstance(p, ast.Call) and call_name(p) == 'str' and len(p.args) == 1 else (const(p) if isinstance(const(p), str) else U(p))
+                    for p in parts]
+            data = [x for x in cols if x not in ('\t', '\n')]
+            if len(data) == 2 and cols.count('\t') == 1:
+                second_ok = data[1] == second or (isinstance(parts[-2] if len(parts) >= 2 else None, ast.AST) and second in U(c.args[0]) and data[1] != first and data[1] != second
+                                                  and False)
+                if data[0] != first or not (data[1] == second):
+                    if data[0] in (first, second) and (data[1] in (first, second) or second in data[1]):
+                        if data[0] == first and second in data[1]:
+                            continue        # the value formatted some other way: not this rule's question
+                        ok = False
+                        ctx.bad(rule, OFO, 'line written as %s <TAB> %s in the loop over %s' % (data[0], data[1], it[:40]),
+                                'the level comes first, its value second', None, c, firm=True)
+                    else:
+                        ok = False
+                        ctx.unk(rule, OFO, 'line %s of the loop over %s is not of a form this rule knows' % (U(c.args[0])[:50], it[:40]))
+    if ctx.floor(rule, OFO, n, 3, 'level table writes') and ok:
+        ctx.ok(rule, OFO, 'the %d level tables are written as level <TAB> value' % n)
+
+
 def r17_keyspace_recursion_counts(ctx, rule):
     """_rec_calc_keyspace counts strings: a cell starts at 0, gains exactly 1 per last letter whose level is the remaining level, and
     the recursive count per continuation otherwise.  (Mutation sweep: `+= 2` / a start value of 1 - every keyspace, and with it every
@@ -310,7 +361,9 @@ def rules(tier):
             # mutation sweep: entries before the start index are never generated - fewer strings than the keyspace says
             ('C18.R16', _shared_rule('c10', 'r23_cursor_starts')),
             # mutation sweep: keyspace cells counted by 2 / started at 1
-            ('C18.R17', _shared_rule('c18', 'r17_keyspace_recursion_counts'))]
+            ('C18.R17', _shared_rule('c18', 'r17_keyspace_recursion_counts')),
+            # mutation sweep: a level table written with the same column twice
+            ('C18.R18', _shared_rule('c18', 'r18_level_table_columns'))]
 
 
 META = {
